@@ -7,7 +7,7 @@ func init() {
 			{Workload: "C11.race", Mode: "race", QuickB: 3, ThoroughB: 8, QuickT: 1800, ThoroughT: 7200},
 		},
 		Level: "fault_enumeration",
-		Rule: "Per tree: a main chain of 6-15 consensus-valid ucon blocks with transactions (forged with the genesis validators' VRF/BLS keys; the node under test verifies with the REAL ucon.Server, so ErrExistCanonical -> insertSidechain -> verifyAllSideChainBlocks -> reorg are the production paths), 1-3 forks with lengths around the tie/longer boundary, 2-4 invalid blocks (wrong state/validator/receipt/tx root, gas used, gas rewards, version, bloom - consensus-valid so only the block validator can reject them). Per tree 2 (thorough 8) import schedules: in order / side chain first / alternating branches / children before parents / whole-branch batches, with duplicates and invalid blocks interleaved. After every InsertChain: canonical index parent-linked from genesis to head with bodies, head state available, CurrentHeader not behind CurrentBlock, every tx-lookup entry (enumerated from the database) points into a canonical block, no invalid block canonical. Crash enumeration: the whole run is recorded on a CrashDB; crash points (every DB op in the thorough tier, ~12 evenly spaced per schedule in quick) are materialised, restarted with NewBlockChain, checked, then the interrupted and remaining calls are re-offered and one further valid block is built and imported: head must equal the never-crashed node's and accept the extra block. C11.race: concurrent InsertChain callers per branch + readers under the race detector. distinct_nontrivial = distinct (main length bucket, forks, schedule shapes).",
+		Rule: "Per tree: a main chain of 6-15 consensus-valid ucon blocks with transactions (forged with the genesis validators' VRF/BLS keys; the node under test verifies with the REAL ucon.Server, so ErrExistCanonical -> insertSidechain -> verifyAllSideChainBlocks -> reorg are the production paths), 1-3 forks with lengths around the tie/longer boundary, 2-4 invalid blocks (wrong state/validator/receipt/tx root, gas used, gas rewards, version, bloom - consensus-valid so only the block validator can reject them). Per tree 2 (thorough 8) import schedules: in order / side chain first / alternating branches / children before parents / whole-branch batches, with duplicates and invalid blocks interleaved. After every InsertChain: canonical index parent-linked from genesis to head with bodies, head state available, CurrentHeader not behind CurrentBlock, every tx-lookup entry (enumerated from the database) points into a canonical block, no invalid block canonical. Crash enumeration: the whole run is recorded on a CrashDB; crash points (every DB op in the thorough tier, ~12 evenly spaced per schedule in quick) are materialised, restarted with NewBlockChain, checked, then the interrupted call is re-offered and one further valid block - a child of the head the never-crashed node has after that call - is imported: it must become the head. C11.race: concurrent InsertChain callers per branch + readers under the race detector. distinct_nontrivial = distinct (main length bucket, forks, schedule shapes).",
 		Explanation: "held = all structural invariants after every import and after every enumerated crash/restart/re-import on the trees of this run",
 		Assumptions: []string{"crash model: process kill at DB-operation granularity on a memory database with atomic batches (torn batches / fsync reordering not modelled)", "forged blocks are honest-looking: produced by searching round indexes for a proposer and precommit quorum among the genesis validators"},
 		Require:     map[string]int64{"trees": 8, "insertchain_calls": 150, "crash_points": 150, "recoveries_completed": 120, "schedules_with_forks": 10, "insertchain_errors": 10, "concurrent_import_runs": 3},
